@@ -416,7 +416,7 @@ def replay_traj(kind):
     def rp(seed):
         from .. import runtime as rt
         rng = np.random.default_rng(seed)
-        for (m, n, sv) in ((2, 3, [0.0, 0.0]), (3, 2, [2.0, 0.5]), (2, 3, [1.0, 1.0]), (2, 2, [3.0, 0.0]), (1, 2, [0.7])):
+        for (m, n, sv) in ((2, 3, [0.0, 0.0]), (2, 2, [3e-9, 1e-9]), (3, 2, [2.0, 0.5]), (2, 3, [1.0, 1.0]), (2, 2, [3.0, 0.0]), (1, 2, [0.7])):
             A4, U4, V4 = rt.from_svd(rng, m, n, sv)
             try:
                 res = _traj_check("ns" if kind.startswith("ns") else "hon", A4, U4, V4, sv, 0.5, 4, sparse=(kind == "ns_sparse"))
@@ -435,12 +435,12 @@ def bounded(rep: Report, tier, seed):
     b = rep.add_bounded(Bounded("trajectories", "shapes <= 4x4 (quick) / 6x6 (thorough); ranks 0..min(m,n); spectra with clusters, repeats, 1e-3..1e3; K <= 6 iterations; gamma in {0.1,0.5,1}",
                                 "A = U diag(s) V^H with harness-built unitary U, V; X for every budget k compared with V diag(t_k/s) U^H; distinct by (solver, shape, spectrum, gamma, storage)"))
     shapes = [(1, 1), (2, 1), (1, 3), (3, 2), (2, 3), (3, 3), (4, 2)] + ([(4, 4), (5, 3), (3, 6), (6, 6)] if tier == "thorough" else [])
-    spectra = lambda r: [[1.0] * r, [float(2 ** i) for i in range(r)], [1e-3] + [1.0] * (r - 1) if r > 1 else [1e3], [5.0, 5.0, 0.1, 0.1][:r]]
+    spectra = lambda r: [[1.0] * r, [float(2 ** i) * 1e-9 for i in range(r)], [float(2 ** i) for i in range(r)], [1e-3] + [1.0] * (r - 1) if r > 1 else [1e3], [5.0, 5.0, 0.1, 0.1][:r]]
     K = 4 if tier == "quick" else 6
     for (m, n) in shapes:
         for r in range(0, min(m, n) + 1):
             specs = spectra(r) if r else [[]]
-            for sv in specs[: (2 if tier == "quick" else 4)]:
+            for sv in specs[: (3 if tier == "quick" else 5)]:
                 svp = list(sv) + [0.0] * (min(m, n) - r)
                 A4, U4, V4 = rt.from_svd(rng, m, n, svp)
                 for kind, gam, resid, sparse in (("ns", 0.5, True, False), ("ns", 1.0, False, False), ("ns", 0.1, True, True), ("hon", 0.0, True, False)):
